@@ -59,6 +59,7 @@ class LatticeEngine(EngineBase):
         self.script = None
         self.script_calls = None   # list of step lists: one per propagate call (move-level replays)
         self.calls = []          # (what, detail) log used by the move-level harness
+        self.vel_requests = []   # the zero_momentum setting every modify_velocities call was handed
 
     # -- plug-in interface ------------------------------------------------
     def step(self):  # required by create_external
@@ -89,6 +90,7 @@ class LatticeEngine(EngineBase):
         system.config = (conf_out, 0)
         system.ekin = 0.5
         self.calls.append(("modify_velocities", x))
+        self.vel_requests.append(vel_settings.get("zero_momentum", "absent"))
         return 0.0, 0.5
 
     def _draw(self):
